@@ -910,7 +910,7 @@ unary_fns: dict[str, UnaryCallable] = {
 def binary_e_fn(
     x: Union[int, float], y: Union[int, float]
 ) -> Union[int, float]:
-    if isinstance(x, int) and isinstance(y, int):
+    if isinstance(x, int) and isinstance(y, int) and abs(y) <= 400:
         if y >= 0:
             for i in range(y):
                 x = x * 10
@@ -945,8 +945,16 @@ binary_add_fns: dict[str, BinaryCallable] = {
     "-": lambda x, y: x - y,
 }
 
+def binary_round_fn(
+    x: Union[int, float], y: Union[int, float]
+) -> Union[int, float]:
+    # The number of digits is truncated to an integer; beyond +-400 it makes
+    # no difference for a double and huge negative values never terminate
+    return round(x, int(max(-400, min(400, y))))
+
+
 binary_round_fns: dict[str, BinaryCallable] = {
-    "round": round,  # type:ignore
+    "round": binary_round_fn,
 }
 
 binary_cmp_fns: dict[str, BinaryCallable] = {
